@@ -64,7 +64,7 @@ static result_t* R;
 static const uint8_t* g_prefix;
 static const uint32_t* g_prefix_sig;
 static int g_prefix_len;
-static int opt_spurious = 0, opt_horizon = 5000, opt_verbose = 0, opt_envpor = 1, opt_cpu = -1;
+static int opt_spurious = 0, opt_horizon = 5000, opt_verbose = 0, opt_envpor = 1, opt_cpu = -1, opt_stack_kb = 256;
 
 /* ------------------------------------------------------------------ tiny formatter (no libc on shared data) */
 static size_t fmt_u(char* d, size_t cap, size_t n, unsigned long long v, unsigned base, int neg) {
@@ -539,7 +539,12 @@ int mc_thread_create(pthread_t* t, const pthread_attr_t* a, void* (*fn)(void*), 
     int id = nth++;
     memset(&th[id], 0, sizeof th[id]);
     th[id].used = 1; th[id].op = OP_START; th[id].fn = fn; th[id].arg = arg; th[id].mi = th[id].ci = -1;
-    int rc = pthread_create(&th[id].real, NULL, trampoline, (void*)(intptr_t)id);
+    /* small stacks: sanitizer runtimes clear the shadow of the whole stack at thread start (8 MB default = slow) */
+    pthread_attr_t at;
+    pthread_attr_init(&at);
+    pthread_attr_setstacksize(&at, (size_t)opt_stack_kb * 1024);
+    int rc = pthread_create(&th[id].real, &at, trampoline, (void*)(intptr_t)id);
+    pthread_attr_destroy(&at);
     if (rc) machinery("pthread_create failed: %d", rc);
     *t = th[id].real;
     return 0;
@@ -983,6 +988,7 @@ int mc_main(int argc, char** argv) {
         else if (!strcmp(argv[i], "--verbose")) verbose = atoi(argv[++i]);
         else if (!strcmp(argv[i], "--envpor")) opt_envpor = atoi(argv[++i]);
         else if (!strcmp(argv[i], "--cpu")) opt_cpu = atoi(argv[++i]);
+        else if (!strcmp(argv[i], "--stack")) opt_stack_kb = atoi(argv[++i]);
         else { fprintf(stderr, "mc: unknown option %s\n", argv[i]); return 2; }
     }
     h_argc = argc - i; h_argv = argv + i;
